@@ -280,6 +280,7 @@ func buildTables(fs filterSpec, v fieldVal) string {
 				} else {
 					r.add("S," + core.Hex(value) + "," + core.Hex(host) + "," + core.Hex(port))
 				}
+				host, _, _ = strings.Cut(host, "%") // the zone is cut off before parsing
 				ip := net.ParseIP(host)
 				if ip == nil {
 					r.add("P," + core.Hex(host))
@@ -466,24 +467,21 @@ func runFlt(f []string) core.Outcome {
 
 func isLoggable(x any) bool { _, ok := x.(caddyhttp.LoggableStringArray); return ok }
 
-// lenientIP extracts an address from a list element the way a reader of the log would:
-// optional port, brackets and zone are stripped. It does not use caddy.
+// lenientIP reads a list element the way the property does: an IP address, optionally with a port
+// (`host:port`, `[host]:port`) and an IPv6 zone. Anything else is not an IP address and has no host bits
+// to hide. It does not use caddy.
 func lenientIP(piece string) (netip.Addr, string, bool) {
 	v := strings.TrimSpace(piece)
 	host := v
 	if h, _, err := net.SplitHostPort(v); err == nil {
 		host = h
 	}
-	host = strings.TrimSuffix(strings.TrimPrefix(host, "["), "]")
-	bare := host
-	if i := strings.IndexByte(bare, '%'); i >= 0 {
-		bare = bare[:i]
-	}
+	bare, _, _ := strings.Cut(host, "%")
 	a, err := netip.ParseAddr(bare)
 	if err != nil {
 		return netip.Addr{}, "", false
 	}
-	return a, host, true
+	return a, bare, true
 }
 
 // hostBitsNonZero reports whether masking with /ones changes the address.
